@@ -20,6 +20,7 @@ RULE = (
     "arguments (non-exception class, str/int instance, functools.partial, callable object, builtin, object()) on every decorator. "
     "Monitors: type/identity/args/message structure of the exception at the caller, number of factory calls, identity of the "
     "objects the factory received. Non-trivial = a violation was raised; distinct = (form, role, kind, async, cond form, subset)."
+    ' Error factories carry a keyword-only marker at a random position of their parameter list (factories are called by keyword: the kind of a parameter makes no difference to what it receives).'
 )
 ASSUMPTIONS = ["decorators created with enabled=False skip validation (silent zone, C15)", "factories with defaulted parameters are a silent zone"]
 
